@@ -133,6 +133,12 @@ def analyse(e, bound, info):
     if t == "var":
         read(e[1], bound, info)
         return
+    if t == "switch":
+        analyse(e[1], bound, info)
+        for (pat, body) in e[2]:
+            names = [pat[1]] if pat[0] == "pname" else (list(pat[1]) if pat[0] in ("plist", "plistl") else [])
+            analyse(body, set(bound) | set(names), info)
+        return
     if t == "switchx":
         analyse(e[1], bound, info)
         for (psrc, names, body) in e[2]:
